@@ -18,7 +18,8 @@ def run(tier, replay=None):
         "a hung call (no return after 4T+4 ticks) is recorded as such; liveness itself is model-checked (MC_Transport_live, weak fairness)",
     ]
     common.model_checks(v, [
-        ("MC_Transport", "MC_Transport_live.cfg", {"workers": 8, "heap": "6g"}, "pass"),
+        # liveness: quick = 3 reply classes x 2 stray classes (0.3 M states), thorough = 4 x 5 (1.2 M states)
+        ("MC_Transport", "MC_Transport_live_q.cfg" if tier == "quick" else "MC_Transport_live.cfg", {"workers": 8, "heap": "6g"}, "pass"),
         ("MC_Transport", "MC_Transport_t.cfg", {"workers": 8, "heap": "6g"}, "pass"),
         ("MC_Transport", "XF_RearmPerRead.cfg", {"workers": 2}, "fail"),
         ("MC_Transport", "XF_NoCloseOnError.cfg", {"workers": 2}, "fail"),
